@@ -44,6 +44,8 @@ ALPHABET = [
 ]
 SYM = dict(ALPHABET)
 SYM.update({"t1h": ("enum", "Header::Text", [("Some", Wire(1))]), "t2h": ("enum", "Header::Text", [("Some", Wire(1))])})
+# tag9: a second tag number (only in targeted sequences): stacked tags keep their encoded nesting, 1(9(x)) is not 9(1(x))
+SYM["tag9"] = H("Tag", 9)
 # t3bad: a definite text whose 3-byte payload is not valid UTF-8
 # t1h / t2h: definite text chunks holding the first and the second half of one two-byte character: neither is valid UTF-8 on its
 # own (RFC 8949 3.2.3: every chunk of an indefinite-length text string is itself a well-formed text string), their concatenation is
@@ -108,6 +110,8 @@ def oracle(seq):
             return ("bytes" if s == "b*" else "text", chunks)
         if s == "tag":
             return ("tag", 1, item())
+        if s == "tag9":
+            return ("tag", 9, item())
         if s in ("a0", "a1", "a2"):
             return ("array", [item() for _ in range(int(s[1]))])
         if s == "a*":
@@ -394,7 +398,9 @@ TARGETED = [
     ("b*", "b*", "b2", "brk", "brk"), ("t*", "t*", "t2", "brk", "brk"), ("b*", "b2", "b2", "brk"), ("t*", "t2", "t2", "brk"),
     ("b*", "t2", "brk"), ("t*", "b2", "brk"), ("t*", "t2", "t3bad", "brk"), ("a*", "a*", "brk", "u5", "brk"),
     ("m*", "u5", "a*", "brk", "brk"), ("m*", "u5", "u5", "u5", "brk"), ("m1", "u5", "brk"), ("a2", "u5", "brk"),
-    ("tag", "tag", "tag", "u5"), ("a*", "m*", "t2", "u5", "brk", "brk"), ("m*", "t2", "b2", "t2", "f", "brk"),
+    ("tag", "tag", "tag", "u5"), ("tag", "tag9", "u5"), ("tag9", "tag", "u5"), ("tag", "tag9", "tag", "tag", "u5"), ("a1", "tag9", "tag", "a1", "tag", "tag9", "u5"),
+    ("tag", "tag9", "a*", "tag9", "tag", "false", "brk"), ("tag9", "tag"), ("tag", "tag9", "brk"),
+    ("a*", "m*", "t2", "u5", "brk", "brk"), ("m*", "t2", "b2", "t2", "f", "brk"),
     ("a2", "a1", "u5", "m0"), ("m1", "a0", "m*", "brk"), ("a*", "b*", "b2", "brk", "t*", "t2", "brk", "brk"),
     # one-byte simple values after the first element / pair of an indefinite-length container (the head length is measured per item)
     ("a*", "u5", "false", "brk"), ("a*", "false", "false", "brk"), ("a*", "t2", "null", "false", "brk"), ("m*", "u5", "u5", "false", "u5", "brk"),
